@@ -690,15 +690,22 @@ func checkLastElem(c *Ctx, p *Program, rule string, prefixes []string) {
 				continue
 			}
 			cmp, ok := ifi.Cond.(*ssa.BinOp)
-			if !ok || cmp.Op != token.LSS {
+			if !ok || (cmp.Op != token.LSS && cmp.Op != token.GTR) {
 				continue
 			}
 			iv, ok := cmp.X.(*ssa.Phi)
 			if !ok {
 				continue
 			}
+			// the descending form: `for i := len(x)-1; i > 0; i--` never looks at x[0]
+			down := cmp.Op == token.GTR
+			if down {
+				if k, ok := cmp.Y.(*ssa.Const); !ok || k.Value == nil || k.Value.ExactString() != "0" {
+					continue
+				}
+			}
 			for _, a := range accs {
-				if a.idx != ssa.Value(iv) || !inLoop(a.blk, b.Index) {
+				if a.idx != ssa.Value(iv) || !(inLoop(a.blk, b.Index) || b.Succs[0].Dominates(a.blk)) {
 					continue
 				}
 				// only tables that are a parameter, a package-level variable or a local as a whole (a row of a
@@ -715,12 +722,25 @@ func checkLastElem(c *Ctx, p *Program, rule string, prefixes []string) {
 					continue
 				}
 				isShort := false
-				if k, ok := cmp.Y.(*ssa.Const); ok && k.Value != nil {
+				if down {
+					for _, e := range iv.Edges {
+						if k, ok := e.(*ssa.Const); ok && k.Value != nil {
+							if n := arrLen(a.base); n > 1 && k.Value.ExactString() == fmt.Sprint(n-1) {
+								isShort = true
+							}
+						}
+						if sub, ok := e.(*ssa.BinOp); ok && sub.Op == token.SUB {
+							if k, ok := sub.Y.(*ssa.Const); ok && k.Value != nil && k.Value.ExactString() == "1" && isLenOf(sub.X, a.base) {
+								isShort = true
+							}
+						}
+					}
+				} else if k, ok := cmp.Y.(*ssa.Const); ok && k.Value != nil {
 					if n := arrLen(a.base); n > 1 && k.Value.ExactString() == fmt.Sprint(n-1) {
 						isShort = true
 					}
 				}
-				if sub, ok := cmp.Y.(*ssa.BinOp); ok && sub.Op == token.SUB {
+				if sub, ok := cmp.Y.(*ssa.BinOp); !down && ok && sub.Op == token.SUB {
 					if k, ok := sub.Y.(*ssa.Const); ok && k.Value != nil && k.Value.ExactString() == "1" && isLenOf(sub.X, a.base) {
 						isShort = true
 					}
@@ -752,7 +772,8 @@ func checkLastElem(c *Ctx, p *Program, rule string, prefixes []string) {
 					continue
 				}
 				h, isShortIV := short[d][a.idx]
-				if !isShortIV || !inLoop(a.blk, h) {
+				// under the loop test (in the body, or in an exit taken from the body) the index is bounded
+				if !isShortIV || !(inLoop(a.blk, h) || f.Blocks[h].Succs[0].Dominates(a.blk)) {
 					reaches = true
 				}
 			}
@@ -765,7 +786,7 @@ func checkLastElem(c *Ctx, p *Program, rule string, prefixes []string) {
 			}
 			nbad++
 			c.bad(rule, fmt.Sprintf("%s: the loops over %s reach its last element", fname(f), d),
-				"every access to it is indexed by a loop variable that stops at len-2: the last element is never looked at", p.fnPos(f))
+				"every access to it is indexed by a loop variable that stops one short of the end of the table (at len-2 going up, at 1 going down): that element is never looked at", p.fnPos(f))
 		}
 	}
 	c.count("len_minus_one_loops", nloops)
@@ -935,6 +956,20 @@ func init() {
 			if p := c.Prog("amd64"); p != nil {
 				c.Clauses = append(c.Clauses, prop+".stalecopy: a coordinate copied from a sibling coordinate of the same point is copied after the last write to it (T = x·y bookkeeping of extended coordinates)")
 				checkStaleCopy(c, p, prop+".stalecopy", pres)
+			}
+		}
+	}
+}
+
+func init() {
+	for prop, pres := range map[string][]string{"C12": {"math", "sign/ed25519", "ecc", "dh/csidh", "vdaf/prio3/arith", "group"}, "C05": {"sign/ed25519", "sign/ed448", "ecc/goldilocks", "math"}} {
+		prop, pres := prop, pres
+		prev := registry[prop]
+		registry[prop] = func(c *Ctx) {
+			prev(c)
+			if p := c.Prog("amd64"); p != nil {
+				c.Clauses = append(c.Clauses, prop+".lastelem: no table (the bytes of a value compared with the modulus, a constant table) is walked only by loops that stop one element short of its end")
+				checkLastElem(c, p, prop+".lastelem", pres)
 			}
 		}
 	}
